@@ -47,7 +47,7 @@ def cases(tier, seed):
         out.append(dict(t="hist", fmt=fmt, mode=mode, N=N, M=M, layout=R.choice(["disjoint", "disjoint", "common"]),
                         pos=[R.choice([0, 1, 3]), 0, 0], maxdelay=R.choice([0.0, 0.005, 0.02]), seed=R.randrange(1 << 30),
                         prior=R.choice(["none", "none", "file"]), mixfmt=(i % 3 == 0), longhold=(i % 5 == 2), pause_after_release=(i % 4 == 1),
-                        linedelay=(i % 3 == 1), mixenv=(i % 4 == 2)))
+                        linedelay=(i % 3 == 1), mixenv=(i % 4 == 2), mixspell=(i % 4 == 3)))
         if out[-1]["linedelay"] and i % 2:
             out[-1].update(N=R.choice([4, 6, 8]), M=R.choice([1, 1, 2]))  # updaters that finish and exit while others still contend
     for i in range(36 if tier == "quick" else 700):
@@ -187,6 +187,24 @@ def _updater(spec, base, idx, go_path):
     if spec.get("linedelay"):
         # descheduling between any two statements of toasty's own tile I/O code (not of the lock library)
         sched.install(spec["seed"] + idx, p=0.06, files=("pyramid.py",), lo=0.002, hi=0.25, budget=4.0)
+    if spec.get("mixspell"):
+        # the updaters name the one pyramid directory in different, equivalent ways (a trailing separator, a relative path,
+        # a detour through '..', a symbolic link) - separate jobs started from different places with different habits
+        k = idx % 5
+        if k == 1:
+            base = base + os.sep
+        elif k == 2:
+            os.chdir(os.path.dirname(base))
+            base = os.path.basename(base)
+        elif k == 3:
+            base = os.path.join(base, os.pardir, os.path.basename(base))
+        elif k == 4:
+            link = base + "-link"
+            try:
+                os.symlink(base, link)
+            except FileExistsError:
+                pass
+            base = link + os.sep
     pio = PyramidIO(base, default_format=spec["fmt"])
     pos = Pos(*spec["pos"])
     R = random.Random("%d/%d" % (spec["seed"], idx))
